@@ -137,7 +137,43 @@ def frames(pkts):
     return {k: v.split(" # ")[0].rstrip() for k, v in pkts.items()}
 
 
-async def fixpoint_trial(lines, cfg, eav, crafted=False):
+async def live_gateway(lines, cfg, eav, reads):
+    """A gateway that received the history packet by packet (its clock moving with each), with snapshots of both kinds taken at `reads` points on
+    the way -- "snapshots taken at every prefix": what an earlier snapshot looked at must not change what a later one says."""
+    k0 = max(1, len(lines) // 10)
+    g = await gw.make_gateway(lines[:k0], cfg, enable_eavesdrop=eav)
+    rest = lines[k0:]
+    at = {int(len(rest) * (j + 1) / (reads + 1)) for j in range(reads)} if reads else set()
+    tr = g._transport
+    for i, ln in enumerate(rest):
+        tr._frame_read(ln[:26], ln[27:])
+        if i in at:
+            await gw.settle(4)
+            for inc in (False, True):
+                g.get_state(include_expired=inc)
+    await gw.settle()
+    return g
+
+
+async def early_reads_trial(lines, cfg, eav):
+    """The final snapshot of a gateway that was asked for snapshots on the way equals that of a gateway (same history, same clock) asked only at the end."""
+    bad = []
+    ga = await live_gateway(lines, cfg, eav, 6)
+    gb = await live_gateway(lines, cfg, eav, 0)
+    try:
+        for inc in (False,):      # (with include_expired=True the two may differ: reading purges expired messages lazily -- nothing says they are kept for ever)
+            pa, pb = ga.get_state(include_expired=inc)[1], gb.get_state(include_expired=inc)[1]
+            if frames(pa) != frames(pb):
+                only_a = [pa[k][:70] for k in pa if k not in pb][:2]
+                only_b = [pb[k][:70] for k in pb if k not in pa][:2]
+                bad.append((f"snapshot-depends-on-earlier-snapshots:{'kept' if only_a else 'dropped'}", f"include_expired={inc} only-after-early-reads={only_a} only-when-asked-once={only_b}", ""))
+    finally:
+        await ga.stop()
+        await gb.stop()
+    return bad
+
+
+async def fixpoint_trial(lines, cfg, eav, crafted=False, reads=0):
     """The statement on real gateways: snapshot -> fresh gateway -> restore -> snapshot."""
     from ramses_rf import Gateway  # noqa: PLC0415
     from ramses_rf.helpers import shrink  # noqa: PLC0415
@@ -145,7 +181,7 @@ async def fixpoint_trial(lines, cfg, eav, crafted=False):
     from ramses_tx.packet import Packet  # noqa: PLC0415
 
     bad = []
-    g1 = await gw.make_gateway(lines, cfg, enable_eavesdrop=eav)
+    g1 = await (live_gateway(lines, cfg, eav, reads) if reads else gw.make_gateway(lines, cfg, enable_eavesdrop=eav))
     try:
         for inc in (False, True):
             sch1, p1 = g1.get_state(include_expired=inc)
@@ -365,7 +401,10 @@ def run(ctx: Ctx) -> None:
     for lines, kind, name, cfg in hists:
         eav = rng.random() < 0.5 if kind != "crafted-313F" else False
         try:
-            bad, _ = gw.run_async(fixpoint_trial, lines, cfg, eav)
+            reads = 0 if kind == "crafted-313F" or len(lines) < 12 else rng.choice((0, 0, 5))
+            bad, _ = gw.run_async(fixpoint_trial, lines, cfg, eav, False, reads)
+            if reads and len(lines) >= 30:
+                bad += gw.run_async(early_reads_trial, lines, cfg, eav)[0]
         except Exception as err:  # noqa: BLE001
             import traceback  # noqa: PLC0415
             tb = traceback.extract_tb(err.__traceback__)[-1]
